@@ -181,7 +181,7 @@ def opGridFS : Op := fun j => do
   Upload handles `h` and download handles `d` are keys of two maps of model streams over ONE store; a
   handle keeps the index `ci` of the content it writes and its offset (as the client of gridfs.run).
   "upload" is UploadFromStreamWithID with a bytes.Reader (one Write of everything; Abort when the Write
-  fails; Close).  An operation on a handle that does not exist (failed open) replies ["x"].
+  fails; Close; Abort when the Close fails).  An operation on a handle that does not exist (failed open) replies ["x"].
   Reply {"ok":{"life":[… as gridfs.run, plus ["U",err] ["O",err]],"state":[[chunks,file,marker] for fid 1..k]}}
 -/
 
@@ -275,8 +275,11 @@ def multiStep (contents : Array (List UInt8)) (tracked : Bool) (buf : Nat) (m : 
         let (st, _, _) := s.abort st
         pure ({ m with st }.push (Json.arr #[Json.str "U", jErr (some err)]))
       | (st, s, _, none) =>
-        let (st, _, err) := s.close st
-        pure ({ m with st }.push (Json.arr #[Json.str "U", jErr err]))
+        match s.close st with
+        | (st, s, some err) =>
+          let (st, _, _) := s.abort st     -- a failed Close leaves the stream open: Abort removes its chunks / marker
+          pure ({ m with st }.push (Json.arr #[Json.str "U", jErr (some err)]))
+        | (st, _, none) => pure ({ m with st }.push (Json.arr #[Json.str "U", Json.null]))
   | "claim" =>
     let (st, err) := claimUpload m.st tracked (← arrNat a 1)
     pure ({ m with st }.push (Json.arr #[Json.str "k", jErr err]))
